@@ -306,6 +306,16 @@ func TestC14aErrorClasses(t *testing.T) {
 				h.SettleCall(call)
 			}
 		}
+		// (a request whose goroutine got going late may have been written on the
+		// connection which followed: there it gets its honest answer)
+		for i := 0; i < 6 && !h.IsDone(call); i++ {
+			if cur := h.Current(); cur != nil && cur.Accepted() {
+				h.WithLock(func() { h.FlushOwedLocked(cur) })
+			}
+			h.App.Step()
+			h.SettleReader("resolution")
+			h.SettleCall(call)
+		}
 		h.MustPoll(method+" returning", func() bool { return h.IsDone(call) })
 		noPanics(h)
 		err := call.Err
